@@ -5,7 +5,10 @@ use crate::verif_kani::playback_tests;
 
 /// a PartialProjection whose scratch buffer holds arbitrary left-over values (C11: no leak)
 pub(crate) fn partial_with_dirty_buffer(project_to: Count, to_buf: Count) -> PartialProjection {
-    PartialProjection { project_to, to_buf }
+    // through the constructor, then only the scratch buffer is overwritten (robust against added private fields)
+    let mut p = PartialProjection::new(project_to);
+    p.to_buf = to_buf;
+    p
 }
 
 /// stub for utils::hypergeometric_pmf: an injective encoding of its arguments (all < 16), so that
